@@ -21,6 +21,12 @@ CLAIMS = {
  "C11": dict(engine="coq-layer-m", tech="Coq proof about an executable model of view selection + exact correspondence with the implementation on enumerated selection chains",
    text="Full for the model: Coq theorems (axiom-free) that one selection keeps exactly the rows of the current view whose local (dense rank within the parent, relative to the current view) or global index is requested, that chains only narrow, that synapses are in view iff both ends are, that local indices are strictly monotone dense ranks (0..k-1) and equal the global ones on a full module. The implementation is compared exactly (rows, edges, local index columns, acceptance/rejection) with the model on random chains over all index forms and both scopes on irregular fixtures; [] and iteration vs method form, loc(), and confinement of writes through views are direct predicates.",
    note=M_NOTE, ref="DESIGN.md §5 C11"),
+ "C12": dict(engine="coq-layer-m", tech="Coq proof (concatenation keeps rows under contiguous indices; sibling permutation leaves pivots unchanged and permutes the solution) + direct predicates on assembled tables and simulations",
+   text="Full for the model: Coq theorems that concatenating constituent tables keeps every row at (offset + j) with contiguous indices, and that listing sibling subtrees in another order leaves the parent's reduced row unchanged and only permutes the computed unknowns (any tree system over R). The code is tied by row-by-row comparison of Branch/Cell/Network tables with heterogeneous constituents (channel union, absent channels stay absent, shared vt/eK), by networks without synapses vs cells alone on every accepting backend, one-branch / one-compartment modules, and by all sorted sibling permutations of small trees.",
+   note=M_NOTE, ref="DESIGN.md §5 C12"),
+ "C13": dict(engine="coq-layer-m", tech="Coq proof about an executable model of set_ncomp's row replacement and group remapping + correspondence / direct predicates on the implementation",
+   text="Full for the model: Coq theorems (axiom-free) that replacing the rows of one branch leaves all rows before it in place and all rows behind it unchanged but shifted, that named groups keep exactly their branch membership (old behaviour refuted), and that the total length n*(L/n) is preserved. The code is tied by sequences of set_ncomp calls on hand-built cells (channels, groups, critical shapes) compared with direct construction (tables, connectivity, groups, simulation on every accepting backend), by running the observed group labels through the model, and by SWC cells compared branch by branch with read_swc(ncomp=n).",
+   note=M_NOTE, ref="DESIGN.md §5 C13"),
  "C14": dict(engine="coq-layer-g", tech="Coq proof over definitions regenerated from the code (jaxpr translation) + direct predicate on the implementation",
    text="Full: for every gate of every built-in channel, Coq theorems over the reals (all v, all dt>0, all parameters; taumax>0) state update_states(init_state(v),dt,v)=init_state(v) about definitions regenerated from /repo on every run; renamed channels are proved identical. Module.init_states' row selection is tied by correspondence on sampled modules with partial insertions.",
    note=G_NOTE, ref="DESIGN.md §5 C14"),
